@@ -3,10 +3,14 @@
 (*   calls: [g, kind, start, end, ret, sent]  - start / end are values of one atomic sequence counter     *)
 (*          taken immediately before the call and immediately after it returned                          *)
 (*   wire:  the counters of all datagrams written to the connection                                      *)
-(* Every call of a round sends (the requests are pairwise different), so:                                *)
+(* A call either sends (its counter appears on the wire) or - a request while an identical one is        *)
+(* unanswered - is withheld and returns the earlier counter.  So:                                        *)
 (*   - every counter on the wire is carried by exactly one datagram, and the wire carries exactly the    *)
 (*     counters the calls returned;                                                                      *)
-(*   - counters strictly increase in issue order whenever calls do not overlap.                          *)
+(*   - a counter returned by several calls was returned to identical requests only;                      *)
+(*   - counters strictly increase in issue order whenever calls do not overlap (calls that share their   *)
+(*     counter with another call - one of them sent, the others were withheld - are left out).           *)
+(* The first rounds are forced: one call parked right after it drew its counter, another call meanwhile. *)
 EXTENDS Naturals, Sequences, FiniteSets, TLC, Json, IOUtils
 
 TraceFile == IF "VERIF_TRACE" \in DOMAIN IOEnv THEN IOEnv.VERIF_TRACE ELSE "trace.ndjson"
@@ -16,12 +20,17 @@ NoDup(seq) == \A i, j \in DOMAIN seq : seq[i] = seq[j] => i = j
 SeqSet(seq) == {seq[i] : i \in DOMAIN seq}
 
 RoundDefects(r) ==
-    LET calls == r.calls  n == Len(calls) IN
+    LET calls == r.calls  n == Len(calls)
+        \* counters returned by more than one call (computed once per round)
+        DupRets == {calls[i].ret : i \in {k \in 1..n : \E j \in 1..n : j # k /\ calls[j].ret = calls[k].ret}}
+        Single(i) == calls[i].ret \notin DupRets
+    IN
     (IF NoDup(r.wire) THEN {} ELSE {"duplicate counter on the wire"})
-    \cup (IF \A i \in 1..n : calls[i].sent THEN {} ELSE {"call did not send"})
-    \cup (IF NoDup([i \in 1..n |-> calls[i].ret]) THEN {} ELSE {"two calls returned the same counter"})
-    \cup (IF SeqSet(r.wire) = {calls[i].ret : i \in 1..n} /\ Len(r.wire) = n THEN {} ELSE {"wire and returned counters differ"})
-    \cup (IF \A i, j \in 1..n : calls[i].end < calls[j].start => calls[i].ret < calls[j].ret THEN {} ELSE {"not monotone for non-overlapping calls"})
+    \cup (IF \A i \in 1..n : calls[i].sent THEN {} ELSE {"call returned no counter"})
+    \cup (IF \A i, j \in 1..n : calls[i].ret = calls[j].ret /\ i # j => calls[i].kind = "request" /\ calls[j].kind = "request" /\ calls[i].key = calls[j].key
+          THEN {} ELSE {"two different calls returned the same counter"})
+    \cup (IF SeqSet(r.wire) = {calls[i].ret : i \in 1..n} THEN {} ELSE {"wire and returned counters differ"})
+    \cup (IF \A i, j \in 1..n : calls[i].end < calls[j].start /\ Single(i) /\ Single(j) => calls[i].ret < calls[j].ret THEN {} ELSE {"not monotone for non-overlapping calls"})
 
 VARIABLE l
 Init == l = 1
